@@ -606,15 +606,80 @@ func ruleC02(w *World) {
 				w.requireFacts("C02.R2", fnKey(fn)+"/ComputeHash", ch.(ssa.Instruction), fmt.Sprintf("%s(%s) == nil", g.Name(), recv))
 			}
 		}
+		// the hash used at position i is exactly hasher_i(message_i): every element appended to the hash list
+		// is `k.ComputeHash(messages[i])` with k the hasher at the same index
+		nh := 0
+		instrs(fn, func(ins ssa.Instruction) {
+			cc, ok := ins.(*ssa.Call)
+			if !ok {
+				return
+			}
+			if b, ok := cc.Call.Value.(*ssa.Builtin); !ok || b.Name() != "append" || len(cc.Call.Args) != 2 {
+				return
+			}
+			if !strings.Contains(typeShort(cc.Call.Args[0].Type()), "[][]byte") {
+				return
+			}
+			if _, isLookup := stripConv(cc.Call.Args[0]).(*ssa.Lookup); isLookup {
+				return // per-key grouping list, handled with the map updates below
+			}
+			// element value: the single store into the varargs array
+			sl, ok := cc.Call.Args[1].(*ssa.Slice)
+			if !ok {
+				return
+			}
+			al, ok := sl.X.(*ssa.Alloc)
+			if !ok {
+				return
+			}
+			for _, ref := range *al.Referrers() {
+				ia, ok := ref.(*ssa.IndexAddr)
+				if !ok {
+					continue
+				}
+				for _, r2 := range *ia.Referrers() {
+					st, ok := r2.(*ssa.Store)
+					if !ok || st.Addr != ia {
+						continue
+					}
+					nh++
+					v := render(st.Val)
+					// expected: <hs>[i].ComputeHash(<msgs>[i]) with the same index expression
+					okk := false
+					if c2, ok := stripConv(st.Val).(*ssa.Call); ok && c2.Call.IsInvoke() && c2.Call.Method.Name() == "ComputeHash" {
+						recv, arg := render(c2.Call.Value), render(c2.Call.Args[0])
+						if strings.HasPrefix(recv, hs+"[") && strings.HasPrefix(arg, msgs+"[") && recv[len(hs):] == arg[len(msgs):] {
+							okk = true
+						}
+					}
+					w.check(okk, "C02.R2", fnKey(fn)+"/hash-provenance", st.Pos(), "hash i = hasher_i(message_i)", "a hash entered into the verification is `"+v+"`, not hasher[i].ComputeHash(messages[i]) for the same i (cached/reused digests ignore the per-index hasher)")
+				}
+			}
+		})
+		if nh == 0 {
+			w.undecided("C02.R2", fnKey(fn)+"/hash-provenance", fn.Pos(), "hash list construction not recognised")
+		}
 		// map insertions only of BLS, non-identity keys
 		nmu := 0
 		instrs(fn, func(ins ssa.Instruction) {
 			mu, ok := ins.(*ssa.MapUpdate)
-			if !ok {
-				return
+			if !ok || !strings.Contains(typeShort(mu.Map.Type()), a.ptFldType()) {
+				return // only the two grouping maps (their key or value holds key points)
 			}
 			nmu++
 			fs := w.factsAt(mu)
+			// positions stay aligned: the hash taken for this key has the same index as the key
+			var pkIdx string
+			for _, f := range fs {
+				if i := strings.Index(f.Expr, ".(*"+a.pubT.Obj().Name()+")#1 == true"); i > 0 && strings.HasPrefix(f.Expr, pks+"[") {
+					pkIdx = f.Expr[len(pks):i]
+				}
+			}
+			for _, v := range []ssa.Value{mu.Key, mu.Value} {
+				for _, hx := range hashIndexExprs(v, 0) {
+					w.check(pkIdx != "" && hx == pkIdx, "C02.R2", fmt.Sprintf("%s/mapupdate#%d/aligned", fnKey(fn), nmu), mu.Pos(), "key i is grouped with hash i", "key at index "+pkIdx+" is grouped with the hash at index "+hx+" (positions of keys and messages no longer aligned)")
+				}
+			}
 			okT, okI := false, false
 			for _, f := range fs {
 				if strings.HasSuffix(f.Expr, ".(*"+a.pubT.Obj().Name()+")#1 == true") {
@@ -671,6 +736,55 @@ func ruleC02(w *World) {
 			w.viol("C02.R3", fnKey(one)+"/delegation", one.Pos(), "no delegating return found")
 		}
 	}
+}
+
+func (a *blsAnchors) ptFldType() string {
+	for _, f := range structFields(a.pubT) {
+		if f.Name() == a.ptFld {
+			return typeShort(f.Type())
+		}
+	}
+	return "?"
+}
+
+// hashIndexExprs: index expressions X of every `<list of hashes>[X]` element read feeding v.
+func hashIndexExprs(v ssa.Value, d int) []string {
+	if d > 6 {
+		return nil
+	}
+	var out []string
+	switch x := v.(type) {
+	case *ssa.UnOp:
+		if ia, ok := x.X.(*ssa.IndexAddr); ok && strings.Contains(typeShort(ia.X.Type()), "[][]byte") {
+			if _, isLookup := stripConv(ia.X).(*ssa.Lookup); !isLookup {
+				out = append(out, "["+render(ia.Index)+"]")
+			}
+		}
+	}
+	if ins, ok := v.(ssa.Instruction); ok {
+		if _, isPhi := v.(*ssa.Phi); !isPhi {
+			for _, op := range ins.Operands(nil) {
+				if *op != nil {
+					out = append(out, hashIndexExprs(*op, d+1)...)
+				}
+			}
+		}
+	}
+	// values stored into the varargs array of an append
+	if sl, ok := v.(*ssa.Slice); ok {
+		if al, ok := sl.X.(*ssa.Alloc); ok {
+			for _, ref := range *al.Referrers() {
+				if ia, ok := ref.(*ssa.IndexAddr); ok {
+					for _, r2 := range *ia.Referrers() {
+						if st, ok := r2.(*ssa.Store); ok && st.Addr == ia {
+							out = append(out, hashIndexExprs(st.Val, d+1)...)
+						}
+					}
+				}
+			}
+		}
+	}
+	return uniq(sortStr(out))
 }
 
 // ruleVerdictProvenancePhi: verdict depends on a C result that may come from two sibling calls (phi).
